@@ -206,6 +206,15 @@ func TestVerifC07Driver(t *testing.T) {
 		{"m61:1", "m61:2", "m61:3", "m61:4", "m61:5", "m61:6", "m61:7", "m61:8", "k4242", "m63:9", "m63:10", "k7"},
 		{"m63:1", "m63:2", "m63:3", "k1", "m61:4", "k2", "m61:5", "m63:6", "k3", "k4"},
 	}
+	// a long burst of reports (then events) that EdgeX does not take, then keep-alives: any bounded hand-over between the
+	// read loop and EdgeX fills up
+	for _, typ := range []int{61, 63} {
+		var evs []string
+		for k := 1; k <= 48; k++ {
+			evs = append(evs, fmt.Sprintf("m%d:%d", typ, k))
+		}
+		scripts = append(scripts, append(evs, "k4242", "k4243"))
+	}
 	if vthorough() {
 		for i := 0; i < 6; i++ {
 			var evs []string
